@@ -77,6 +77,35 @@ def hist_cfg(spec, creds, attempts, reloads, memo="none", inv=False, mtimes="MCM
                            inv="INVARIANTS HistoryIndependent UpstreamOnlyWhenAccepted" if inv else "")
 
 
+OV_CFG = """SPECIFICATION %(spec)s
+CONSTANTS
+  Creds <- %(creds)s
+  Versions <- MCVersions
+  Valid <- MCValid
+  FirstVersion = "v1"
+  MaxAttempts = %(attempts)d
+  MaxReloads = 1
+  MaxOpen = 2
+  Design = "%(design)s"
+%(inv)s
+CHECK_DEADLOCK FALSE
+"""
+
+
+def ov_cfg(spec, attempts, design="none", creds="MCCreds", inv=False):
+    return OV_CFG % dict(spec=spec, attempts=attempts, design=design, creds=creds,
+                         inv="INVARIANTS OverlapSound UpstreamOnlyWhenAccepted" if inv else "")
+
+
+def ov_class(line):
+    """schedules of the new dimension: some attempt's extent contains the replacement and some attempt starts after it"""
+    c = json.loads(line)
+    ev = c["events"]
+    rs = [i for i, e in enumerate(ev) if e["ev"] == "reload"]
+    return bool(rs) and any(e["ev"] == "finish" and len(e["seen"]) > 1 for e in ev) and \
+        any(e["ev"] == "start" and i > rs[0] for i, e in enumerate(ev))
+
+
 CHAIN_Q = ("MCPresLong", "MCSufsShort", "MCFillsSome")
 CHAIN_T = ("MCPresLong", "MCSufsLong", "MCFillsAll")
 
@@ -84,6 +113,7 @@ SUBS = {
     "multihttp": ("proxy", ["proxy/c12_test.go", "proxy/c12_multi_test.go"], "^TestVerifC12MultiHTTP$", False),
     "multitcp": ("proxy/tcp", ["proxy/tcp/c12_test.go", "proxy/tcp/c12_multi_test.go"], "^TestVerifC12MultiTCP$", False),
     "authhist": ("proxy", ["proxy/c12_hist_test.go"], "^TestVerifC12AuthHist$", False),
+    "authoverlap": ("proxy", ["proxy/c12_overlap_test.go"], "^TestVerifC12AuthOverlap$", False),
     "route": ("route", ["route/c12_test.go"], "^TestVerifC12Route$", False),
     "http": ("proxy", ["proxy/c12_test.go"], "^TestVerifC12HTTP$", False),
     "tcp": ("proxy/tcp", ["proxy/tcp/c12_test.go"], "^TestVerifC12TCP$", False),
@@ -190,6 +220,7 @@ def run(ctx):
         "the unparsable items name blocks containing no address of the universe, so a more lenient parser would be judged the same",
         "other options of the same target {none, strip=, host=dst, tlsskipverify= (valid); redirect=3O1, redirect=200, proto=<unknown>, an unknown option (malformed); redirect=301 (valid: the route answers 30x instead of forwarding - the 30x is gated by rules and scheme like a forwarded request)} combined with every rule list: they never take part in the decision; a target with a malformed one may be refused as a whole or deny more, it must not admit more",
         "authentication histories: <=3 login attempts over {good, changed password, wrong password, shifted user/password split, empty user, empty password, other user, crossed, none, malformed} with <=1 replacement of the htpasswd file (3 contents; modification time newer, older or equal to the loaded one - equal leaves either content permitted; a refresh missing after 250 intervals = 5 s counts as not applied); the file may also disappear and come back, up to 3 file events per history: while it is gone nobody is accepted on a fresh scheme instance per history; the verdict must follow from the attempt and the content in force",
+        "authentication while the htpasswd content changes under requests in flight (scheme with refresh > 0, the judged user's password stored under bcrypt cost 11 so that one check takes about 0.1 s): schedules of <=%d attempts {good, changed password, wrong password} with an extent (start .. finish, <=2 in flight) and one replacement of the file taking effect in between; an attempt whose extent contains the replacement is played as <=6 identical requests fired across it and may be judged by either content; an attempt STARTED after the new content was observed in force (its sentinel user accepted) is judged by the new content alone" % ctx.pick(2, 3),
         "routes with two targets carrying their own rules (none / allow or deny of one block each) and instances up or down, 4 requests each so that the round-robin picker uses both: a request may reach only an instance whose own target's rules admit it; failing or trying another (checked) target after a failed connect are both permitted",
         "when access and authentication both fail, 403 and 401 are both accepted (the statement fixes no order)",
         "end to end runs use loopback sources (127.0.0.0/8, ::1 and, when the host has one, a link-local address for the zone-scoped peer); the IPv6-outside peer exists only at decision level and as an X-Forwarded-For element",
@@ -197,8 +228,8 @@ def run(ctx):
     # 1. the clauses on the models (the broken design must be caught) and 2. the cases - independent TLC runs,
     #    several at a time
     T = ctx.tmp
-    acc, gate, nestc, chainc, otherc, histc, histr, multic, histx, redirc = (os.path.join(T, "c12.%s.cases" % n) for n in
-                                                              ("access", "gate", "nest", "chain", "other", "hist", "histreload", "multi", "histremove", "redirect"))
+    acc, gate, nestc, chainc, otherc, histc, histr, multic, histx, redirc, ovc2, ovc3 = (os.path.join(T, "c12.%s.cases" % n) for n in
+                                                              ("access", "gate", "nest", "chain", "other", "hist", "histreload", "multi", "histremove", "redirect", "overlap2", "overlap3"))
     mcfg = cfg("MSpec", 1, 1, auth=False).replace("Items <- MCItems", "Items <- MCWFItems")
 
     def multi_mc():
@@ -260,6 +291,38 @@ def run(ctx):
                 return True
         return f
 
+    def ov_mc(design):
+        def f():
+            h = ctx.tlc("AccessOverlap_MC", cfg_text=ov_cfg("Spec", 3, design=design, creds=ctx.pick("MCCreds", "MCCredsWide"), inv=True), workers=4, timeout=600)
+            with _settle:
+                ctx.log("MC auth with requests in flight across a replacement (design=%s): %d generated, %d distinct, %.0fs" % (design, h.generated, h.distinct, h.wall))
+                if not ctx.need_tlc_ok(h, "AccessOverlap MC design=" + design):
+                    return False
+                ctx.cover("mc-authoverlap-" + design, states=h.distinct, transitions=h.generated)
+                return True
+        return f
+
+    def ov_bad():
+        bad = ctx.tlc("AccessOverlap_MC", cfg_text=ov_cfg("Spec", 3, design="late", inv=True), workers=4, timeout=300)
+        with _settle:
+            if bad.error or bad.timed_out or bad.violated != "OverlapSound":
+                ctx.inconclusive("the design that stores the verdict of a check begun against the replaced table after the flush is NOT rejected by the model (violated=%s error=%s)"
+                                 % (bad.violated, bad.error))
+                return False
+            ctx.log("MC auth with requests in flight, broken design (verdict of a check on the replaced table remembered after the flush): violates OverlapSound after %d states, as required" % bad.generated)
+            return True
+
+    def ov_gen(sink, attempts):
+        def f():
+            r = ctx.tlc("AccessOverlap_MC", cfg_text=ov_cfg("GenSpec", attempts), workers=4, json_sink=sink, timeout=600)
+            with _settle:
+                if not ctx.need_tlc_ok(r, "AccessOverlap Gen %d" % attempts):
+                    return False
+                ctx.log("Gen auth schedules with requests in flight (<=%d attempts): %d transitions" % (attempts, r.generated - 1))
+                ctx.cover("gen-authoverlap-%d" % attempts, transitions=r.generated)
+                return True
+        return f
+
     steps = []
     if ctx.thorough:
         # coverage statistics (vacuity guard: every action taken) on the small configuration only - they slow TLC a lot
@@ -294,9 +357,13 @@ def run(ctx):
         # the htpasswd file disappears and comes back, more than once
         hist_gen(histx, "MCCredsTiny", 3, "file-disappears", attempts=2, mtimes="MCMTimesNewer", removal=True),
         multi_gen,
+        # requests in flight while the htpasswd content is replaced: the design and the memo that stores only
+        # verdicts of the table in force hold, the memo that stores a stale verdict after the flush must not
+        ov_mc("none"), ov_mc("checked"), ov_bad, ov_gen(ovc2, 2),
     ]
     if ctx.thorough:
         steps.append(hist_mc("pair"))
+        steps.append(ov_gen(ovc3, 3))
     if not par(ctx, steps, width=ctx.pick(4, 3)):
         return
 
@@ -323,6 +390,10 @@ def run(ctx):
     sample(ctx, histc, hall, 1.0)
     nrel = sample(ctx, histr, hall, ctx.pick(0.12, 0.08), always=None, pred=lambda l: '"reload"' in l and l.count('"attempt"') == 3)
     nrel += sample(ctx, histx, hall, ctx.pick(0.15, 0.5), pred=lambda l: '"remove"' in l and l.count('"attempt"') == 2)
+    ovall = os.path.join(ctx.tmp, "c12.overlap.all")
+    nov = sample(ctx, ovc2, ovall, 1.0, pred=ov_class)
+    if ctx.thorough:
+        nov += sample(ctx, ovc3, ovall, 0.08, pred=lambda l: ov_class(l) and l.count('"start"') == 3)
     mh = os.path.join(ctx.tmp, "c12.multi.http")
     sample(ctx, multic, mh, ctx.pick(0.3, 1.0), proto="http")
     mt = os.path.join(ctx.tmp, "c12.multi.tcp")
@@ -334,6 +405,7 @@ def run(ctx):
     FUT["http"] = ex.submit(run_sub, ctx, "http", httpc, "C12 end to end HTTP", timeout=ctx.pick(300, 800))
     FUT["tcp"] = ex.submit(run_sub, ctx, "tcp", tcpc, "C12 end to end TCP", timeout=ctx.pick(300, 800))
     FUT["authhist"] = ex.submit(run_sub, ctx, "authhist", hall, "C12 authentication histories", timeout=ctx.pick(300, 800))
+    FUT["authoverlap"] = ex.submit(run_sub, ctx, "authoverlap", ovall, "C12 authentication with requests in flight", timeout=ctx.pick(300, 800))
     FUT["multihttp"] = ex.submit(run_sub, ctx, "multihttp", mh, "C12 multi-target HTTP", timeout=ctx.pick(300, 800))
     FUT["multitcp"] = ex.submit(run_sub, ctx, "multitcp", mt, "C12 multi-target TCP", timeout=ctx.pick(300, 800))
     ex.shutdown(wait=False)
@@ -389,6 +461,19 @@ def run(ctx):
               samples=s.get("samples") or [])
     ctx.take_failures(r, "authhist")
 
+    # 6b. replay: the htpasswd content replaced under requests in flight
+    r = FUT["authoverlap"].result()
+    if r is None:
+        return
+    s = r.summary
+    ctx.log("auth with requests in flight end to end: %d schedules, %d requests, %d accepted / %d rejected, %d replacements observed, %d schedules with a request spanning the replacement, %d with an attempt started after it, %d failed, %.0fs"
+            % (s["ran"], s["requests"], s["accepted"], s["rejected"], s["reloads"], s["spanned"], s["judged_after"], s["fails"], r.wall))
+    if not s["fails"] and (s["ran"] == 0 or s["accepted"] == 0 or s["rejected"] == 0 or s["reloads"] == 0 or s["spanned"] == 0 or s["judged_after"] == 0):
+        ctx.inconclusive("run of authentication with requests in flight is vacuous: %s" % json.dumps(s)[:400])
+    ctx.cover("authoverlap", traces_validated_against_impl=s["ran"], evaluations=s["requests"], distinct_nontrivial=s["distinct_nontrivial"],
+              samples=s.get("samples") or [])
+    ctx.take_failures(r, "authoverlap")
+
     # 7. routes with several targets carrying different rules, instances up / down
     r = FUT["multihttp"].result()
     if r is None:
@@ -412,6 +497,7 @@ def run(ctx):
     ctx.take_failures(r, "multitcp")
 
     selftest(ctx, acc)
+    selftest_overlap(ctx, ovall)
 
 
 def selftest(ctx, acc):
@@ -444,6 +530,35 @@ def selftest(ctx, acc):
         return
     if not r.of_kind("fail"):
         ctx.inconclusive("binding self-test: a corrupted expectation was NOT rejected by the real code's decision")
+
+
+def selftest_overlap(ctx, ovall):
+    """binding self-test of the in-flight schedules: a corrupted permitted-verdict set must be rejected."""
+    pick = None
+    with open(ovall) as fh:
+        for line in fh:
+            pick = json.loads(line)
+            break
+    if pick is None:
+        ctx.inconclusive("no usable schedule for the binding self-test of the in-flight schedules")
+        return
+    bad = json.loads(json.dumps(pick))
+    for a in bad["allowed"]:
+        if len(a["may"]) == 1:
+            a["may"] = [not a["may"][0]]
+    one = os.path.join(ctx.tmp, "c12.selftest.overlap")
+    vf.write_ndjson(one, [bad])
+    pkg, files, run_, _ = SUBS["authoverlap"]
+    r = ctx.gotest(pkg, files, run_, env={"VERIF_IN": one}, timeout=300)
+    if not ctx.need_go_ok(r, "C12 self-test (in-flight schedules)"):
+        return
+    if not r.of_kind("oracle"):
+        ctx.inconclusive("binding self-test: the referee did NOT notice a corrupted verdict set of an in-flight schedule")
+    r = ctx.gotest(pkg, files, run_, env={"VERIF_IN": one, "VERIF_C12_NOREFEREE": "1"}, timeout=300)
+    if not ctx.need_go_ok(r, "C12 self-test (in-flight schedules)"):
+        return
+    if not r.of_kind("fail"):
+        ctx.inconclusive("binding self-test: a corrupted verdict set of an in-flight schedule was NOT rejected by the real code's answers")
 
 
 def replay(ctx, rp):
